@@ -223,7 +223,9 @@ def run(ctx):
     for kind in vocab:
         other = Obj('TableInfo', conditions=[], table=ident('a'), index=0, join_condition=None, join_type=None)
         me = Obj('TableInfo', conditions=[], table=ident('b'), index=1, join_type=kind)
-        on = binop('and', binop('=', ident('a.id', other), ident('b.id', me)), binop('=', ident('b.y', me), const(1)))
+        foreign = binop('=', ident('a.z', other), const(2))
+        mine = binop('=', ident('b.y', me), const(1))
+        on = binop('and', binop('and', binop('=', ident('a.id', other), ident('b.id', me)), mine), foreign)
         me.attrs['join_condition'] = on
         stubs = base_stubs()
         stubs['self.get_table_for_column'] = lambda it, c: c.attrs.get('_table') if isinstance(c, Obj) else None
@@ -237,6 +239,12 @@ def run(ctx):
         except Raised as r:
             raise AnalysisError(f'get_filters_from_join_conditions raises {r.exc_name} for join kind {kind}')
         rows += 1
+        ctx.ob('C08.on-clause-side', f'{kind}:own-columns-only', not any(c is foreign for c in (res or [])),
+               f'{kind}: the ON conjunct `a.z = 2` speaks about another table but is put into the fetch of table b (which has no such column, or a different one)',
+               file=PJ, line=fn['get_filters_from_join_conditions'].lineno, witness='select * from int1.a join int2.b on a.id = b.id and a.z = 2')
+        if kind in ('JOIN', 'INNER JOIN', 'LEFT JOIN'):
+            ctx.ob('C08.on-clause-side', f'{kind}:own-constant-filter', any(c is mine for c in (res or [])),
+                   f'{kind}: the ON conjunct b.y = 1 is no longer used as filter of b (anchor)', file=PJ, line=fn['get_filters_from_join_conditions'].lineno)
         keeps_right = kind not in ('JOIN', 'INNER JOIN', 'CROSS JOIN', 'LEFT JOIN', 'LEFT OUTER JOIN')
         if keeps_right:
             ctx.ob('C08.on-clause-side', str(kind), not res,
